@@ -13,7 +13,7 @@ private call structure has been flattened:
 * a function all of whose call sites were inlined is removed from the program
   ("absorbed"), so inventories do not see its events twice.
 """
-import copy, re
+import copy, os, sys, re
 from .facts import Operand, Body, strip_generics
 from .analysis import split_generic_args
 
@@ -185,6 +185,14 @@ class Normaliser:
         return self._newtypes
 
     @property
+    def error_types(self):
+        """types of the analysed crates that implement std::error::Error"""
+        if getattr(self, '_error_types', None) is None:
+            self._error_types = {strip_generics(i.get('self_ty', '')).split('<')[0] for c in self.prog.crates.values() if c.name in self.crates
+                                 for i in c.impls if i.get('trait') == 'std::error::Error'}
+        return self._error_types
+
+    @property
     def trait_impls(self):
         if getattr(self, '_trait_impls', None) is None:
             cnt = {}
@@ -220,7 +228,12 @@ class Normaliser:
             # the one impl of a helper trait of the analysed crates (an extension trait used like a private function): statically
             # resolved calls of its methods are inlined like calls of private functions.  Operator / std traits, traits with
             # several impls and traits of other crates stay calls.
-            if self._crate_of(tr) not in self.crates or self.trait_impls.get(tr, 0) != 1 or b.j.get('impl_derived'):
+            if (tr == 'std::convert::From' or tr.startswith('std::convert::From<')) and not b.j.get('impl_derived') and b.path.startswith('<') and \
+                    strip_generics(b.path[1:].split(' as ')[0]).split('<')[0] in self.error_types:
+                # a conversion into a type of the analysed crates (`impl From<AcquireError> for PoolError`): what `?` / `.into()`
+                # / `map_err(Into::into)` does at a call site is this body - the variant it builds is built at the call site
+                pass
+            elif self._crate_of(tr) not in self.crates or self.trait_impls.get(tr, 0) != 1 or b.j.get('impl_derived'):
                 return False
         else:
             if b.j.get('vis') == 'pub':
@@ -286,6 +299,21 @@ class Normaliser:
                     continue
                 c = t['f']['k']
                 p = c.get('rfn') or c.get('fn')
+                if not self.only_newtypes:
+                    # conversions into an error type of the analysed crates, as they are written at use sites: `e.into()` is the
+                    # blanket impl around `From::from`; `?` on a Result with another error type is `Err(From::from(e))`
+                    if p == '<T as std::convert::Into<U>>::into' and len(c.get('targs', [])) == 2:
+                        p2 = '<%s as std::convert::From<%s>>::from' % (c['targs'][1], c['targs'][0])
+                        if p2 in self.inlinable and p2 != body.path:
+                            self.dissolved.add((strip_generics(p), t.get('line', 0)))
+                            t['f'] = {'k': {'v': p2, 'ty': '', 'fn': 'std::convert::From::from', 'fn_inst': p2, 'targs': [c['targs'][1], c['targs'][0]],
+                                            'trait': 'std::convert::From', 'rfn': p2, 'rfn_inst': p2, 'rk': 'item'}}
+                            c = t['f']['k']; p = p2
+                            inlined.append('into-as-from:' + p2)
+                    elif c.get('fn') == 'std::ops::FromResidual::from_residual' and self._desugar_converting_residual(bj, x):
+                        self.dissolved.add((strip_generics(p), t.get('line', 0)))
+                        inlined.append('desugar:converting-residual'); changed = True
+                        continue
                 callee = self.inlinable.get(p)
                 if callee is not None and p != body.path and inlined.count(p) < 6:
                     self._inline_call(bj, x, callee.j, closure=False)
@@ -601,6 +629,43 @@ class Normaliser:
         return True
 
 
+    def _desugar_converting_residual(self, bj, x):
+        """`r?` where the error type of `r` differs from the function's and the conversion is an impl of the analysed crates:
+        `from_residual(r)` => `Err(<F as From<E>>::from(r.err))` (what the std impl does), so that the conversion is inlined"""
+        blk = bj['blocks'][x]
+        t = blk['term']
+        c = t['f']['k']
+        ta = c.get('targs', [])
+        args = t.get('args', [])
+        if len(ta) != 2 or len(args) != 1 or 'k' in args[0] or t.get('t') is None or not t.get('dest'):
+            return False
+        if not (ta[0].startswith('std::result::Result<') and ta[1].startswith('std::result::Result<std::convert::Infallible,')):
+            return False
+        f_ty = split_generic_args(ta[0])[-1]
+        e_ty = split_generic_args(ta[1])[-1]
+        if f_ty == e_ty:
+            return False
+        p2 = '<%s as std::convert::From<%s>>::from' % (f_ty, e_ty)
+        if p2 not in self.inlinable:
+            return False
+        line = t.get('line', 0)
+        rp = args[0].get('m') or args[0].get('c')
+        le = self._new_local(bj, e_ty, line)
+        lf = self._new_local(bj, f_ty, line)
+        pay = {'l': rp['l'], 'pr': list(rp.get('pr', [])) + ['@Err', '.0'], 'own': list(rp.get('own', [])) + [None, 'std::result::Result'], 'ty': e_ty}
+        blk['stmts'].append(_assign(le, {'m': pay}, line))
+        nb = len(bj['blocks'])
+        dest = t['dest']
+        blk['term'] = {'k': 'call', 'f': {'k': {'v': p2, 'ty': '', 'fn': 'std::convert::From::from', 'fn_inst': p2, 'targs': [f_ty, e_ty], 'trait': 'std::convert::From',
+                                                 'rfn': p2, 'rfn_inst': p2, 'rk': 'item'}},
+                       'args': [{'m': {'l': le, 'pr': [], 'own': [], 'ty': e_ty}}], 'dest': {'l': lf, 'pr': [], 'own': [], 'ty': f_ty}, 't': nb, 'u': t.get('u', 'continue'), 'line': line,
+                       'desugared': 'converting-residual'}
+        bj['blocks'].append({'cleanup': False, 'stmts': [{'k': 'assign', 'p': copy.deepcopy(dest),
+                                                           'rv': {'k': 'agg', 'ak': 'adt', 'adt': 'std::result::Result', 'variant': 'Err', 'fields': ['0'],
+                                                                  'ops': [{'m': {'l': lf, 'pr': [], 'own': [], 'ty': f_ty}}], 'from_residual': True}, 'line': line}],
+                             'term': {'k': 'goto', 't': t['t'], 'line': line}})
+        return True
+
     SCALARS = ('usize', 'isize', 'u8', 'u16', 'u32', 'u64', 'u128', 'i8', 'i16', 'i32', 'i64', 'i128', 'bool')
 
     def _desugar_scalar_replace(self, bj, x):
@@ -889,10 +954,29 @@ class Normaliser:
                 return False
             for d in ds:
                 if d[0] != 'stmt':
+                    # `from_residual(r)` builds the failure variant of its result type, whatever r is
+                    ty_ = bj['locals'][y]['ty']
+                    if d[0] == 'call' and 'k' in d[2]['f'] and d[2]['f']['k'].get('fn') == 'std::ops::FromResidual::from_residual' and \
+                            ty_.split('<')[0] in ('std::result::Result', 'std::option::Option'):
+                        adt = ty_.split('<')[0]
+                        continue
                     return False
                 rv = d[2]['rv']
                 if rv['k'] == 'use' and 'k' not in rv['op'] and not (rv['op'].get('m') or rv['op'].get('c')).get('pr'):
                     work.append((rv['op'].get('m') or rv['op'].get('c'))['l'])
+                elif rv['k'] == 'use' and 'k' not in rv['op'] and (rv['op'].get('m') or rv['op'].get('c')).get('pr') == ['@Ready', '.0']:
+                    # the result of an await whose helper was inlined: `_p = Poll::Ready(_y)` at each return of the helper
+                    pl_ = (rv['op'].get('m') or rv['op'].get('c'))['l']
+                    ok_ = True
+                    for d2 in self._all_defs(bj, pl_):
+                        r2 = d2[2]['rv'] if d2[0] == 'stmt' else None
+                        if r2 and r2['k'] == 'agg' and r2.get('adt') == 'std::task::Poll' and r2.get('variant') == 'Ready' and r2.get('ops') and 'k' not in r2['ops'][0] and \
+                                not (r2['ops'][0].get('m') or r2['ops'][0].get('c')).get('pr'):
+                            work.append((r2['ops'][0].get('m') or r2['ops'][0].get('c'))['l'])
+                        else:
+                            ok_ = False
+                    if not ok_:
+                        return False
                 elif rv['k'] == 'agg' and rv.get('ak') == 'adt' and rv.get('adt') in ('std::result::Result', 'std::option::Option'):
                     adt = rv['adt']
                 else:
@@ -1000,6 +1084,7 @@ class Normaliser:
         lo = len(bj['locals']); bo = len(blocks)
         cj = copy.deepcopy(cb.j)
         _instantiate_const_params(cj, ((at.get('f') or {}).get('k') or {}).get('targs') or [])
+        bj.setdefault('helper_locals', []).append([lo, lo + len(cj['locals']), cj['path']])          # state of the helper's coroutine
         bj['locals'].extend(cj['locals'])
         for dbg in cj.get('debug', []):
             if 'p' in dbg:
@@ -1302,6 +1387,8 @@ def thread_jumps(bj, max_clones=60, enums=()):
             if P.get('cleanup'):
                 continue
             nxt = _succ_normal(P['term'])
+            if P['term']['k'] == 'call' and 'k' in P['term']['f'] and P['term']['f']['k'].get('fn') == 'std::ops::FromResidual::from_residual':
+                nxt = P['term'].get('t')          # what it returns is of known variant (below)
             if nxt is None and P['term']['k'] != 'switch':
                 continue
             # last constant-bool definition in P that is not overwritten later in P
@@ -1319,6 +1406,17 @@ def thread_jumps(bj, max_clones=60, enums=()):
                     flags[l] = flags[_bare_local(rv['op'])]
                 else:
                     flags.pop(l, None)
+            tP0 = P['term']
+            if tP0['k'] == 'call':
+                for a_ in tP0.get('args', []):
+                    flags.pop(_bare_local(a_), None)
+                if tP0.get('dest') and not tP0['dest'].get('pr'):
+                    flags.pop(tP0['dest']['l'], None)
+                    # `_r = from_residual(..)`: the failure variant of the result type
+                    if 'k' in tP0['f'] and tP0['f']['k'].get('fn') == 'std::ops::FromResidual::from_residual':
+                        ty_ = bj['locals'][tP0['dest']['l']]['ty'].split('<')[0]
+                        if ty_ in ('std::result::Result', 'std::option::Option'):
+                            flags[tP0['dest']['l']] = '@Err' if ty_.endswith('Result') else '@None'
             flags = {l: v for l, v in flags.items() if l not in addr}
             if not flags:
                 continue
@@ -1348,7 +1446,7 @@ def thread_jumps(bj, max_clones=60, enums=()):
             cur = nxt
             target = None
             fl = dict(flags)
-            while cur is not None and cur not in chain and cur != pi and len(chain) < 14:
+            while cur is not None and cur not in chain and cur != pi and len(chain) < 32:
                 B = blocks[cur]
                 if B.get('cleanup'):
                     break
@@ -1359,6 +1457,20 @@ def thread_jumps(bj, max_clones=60, enums=()):
                     # cloned blocks must not compute anything: a temporary defined twice would blur every def-use analysis.
                     # allowed: constants, copies / discriminants of flag locals, unit / enum aggregates
                     rv_ = s['rv']
+                    # (`_p = Poll::Ready(_x)` / `_y = _p@Ready.0` of an inlined await only wrap and unwrap a flag local)
+                    wrap_ = rv_['k'] == 'agg' and rv_.get('adt') == 'std::task::Poll' and rv_.get('variant') == 'Ready' and len(rv_.get('ops', [])) == 1 and \
+                        _bare_local(rv_['ops'][0]) in fl and not s['p'].get('pr')
+                    unwrap_ = None
+                    if rv_['k'] == 'use' and 'k' not in rv_['op']:
+                        pl_ = rv_['op'].get('m') or rv_['op'].get('c')
+                        if pl_.get('pr') == ['@Ready', '.0'] and str(fl.get(pl_['l'], '')).startswith('Ready:') and not s['p'].get('pr'):
+                            unwrap_ = fl[pl_['l']][6:]
+                    if wrap_:
+                        fl[s['p']['l']] = 'Ready:' + fl[_bare_local(rv_['ops'][0])]
+                        continue
+                    if unwrap_ is not None:
+                        fl[s['p']['l']] = unwrap_
+                        continue
                     simple = (rv_['k'] == 'use' and ('k' in rv_['op'] or _bare_local(rv_['op']) in fl)) or \
                         (rv_['k'] == 'discr' and not rv_['p'].get('pr') and rv_['p']['l'] in fl) or \
                         (rv_['k'] == 'agg' and not rv_.get('ops'))
@@ -1409,10 +1521,12 @@ def thread_jumps(bj, max_clones=60, enums=()):
                             target = tt['otherwise']
                     break
                 if tt['k'] == 'drop' and _bare_local({'c': tt['p']}) in fl:
-                    break
+                    fl.pop(_bare_local({'c': tt['p']}), None)          # (its copies made before keep what they know)
                 cur = _succ_normal(tt)
                 if not fl:
                     break
+            if os.environ.get('DP_DEBUG_THREAD') and any(str(v).startswith('@') for v in flags.values()):
+                print('thread: P=%d flags=%s chain=%s target=%s fl=%s' % (pi, flags, chain, target, fl), file=sys.stderr)
             if target is None or not chain:
                 continue
             # only worth it when some block of the chain is a join (otherwise nothing is infeasible)... always sound; clone
@@ -1619,7 +1733,8 @@ def normalise(prog, crates, keep=(), only_newtypes=False):
     used = set()
     for b in new.values():
         used |= set(getattr(b, 'inlined', []))
-    absorbed = [p for p in nz.inlinable if p not in still and p in used]
+    # (a conversion impl of an error type is public API as well: it is inlined at its uses and stays a body of its own)
+    absorbed = [p for p in nz.inlinable if p not in still and p in used and not str(nz.inlinable[p].j.get('impl_trait') or '').startswith('std::convert::From')]
     # closures of absorbed functions were copied by reference (their bodies stay, paths unchanged); closures that were
     # inlined at their only invocation stay too (harmless: they contain no call sites of their own that matter twice?)
     for p in absorbed:
